@@ -407,7 +407,8 @@ func isInputByte(v ssa.Value) bool {
 	if !ok {
 		return false
 	}
-	call, ok := ia.X.(*ssa.Call)
+	// the buffer's bytes, or a reslice of them (`payload := b[intro+1:]`)
+	call, ok := sliceRoot(ia.X).(*ssa.Call)
 	return ok && calleeName(&call.Call) == "(*bytes.Buffer).Bytes"
 }
 
